@@ -55,6 +55,7 @@ THEOREMS = [
     "Mpc.C03_for_unroll",
     "Mpc.C03_for_unroll_conv",
     "Mpc.C03_ssa_lower_correct_partial",
+    "Mpc.C03_ssa_lower_correct_single",
     "Mpc.C03_ssa_lower_examples_in_fragment",
     "Mpc.C03_ssa_lower_ex_straight",
     "Mpc.C03_ssa_lower_ex_literals",
@@ -63,6 +64,10 @@ THEOREMS = [
     "Mpc.C03_ssa_lower_ex_early_return",
     "Mpc.C03_ssa_lower_ex_for",
     "Mpc.C03_ssa_lower_ex_div",
+    "Mpc.C03_ssa_lower_ex_call",
+    "Mpc.C03_ssa_lower_ex_array",
+    "Mpc.C03_ssa_lower_ex_struct",
+    "Mpc.C03_ssa_lower_ex_nested",
     "Mpc.C03_ssa_lower_excludes_deviations",
     "Mpc.C03_fuel_irrelevant",
     "Mpc.C03_fuel_irrelevant_raw",
@@ -152,6 +157,7 @@ def classify(ctx, mode, seed, ops, out, model, srcs, maxkeep=40, ssamodel=None):
     dis = 0
     unexplained = 0
     local = []
+    gen_invalid = []
     try:
         recs = [json.loads(l) for l in open(srcs, errors="replace") if l.strip()]
     except Exception as e:  # noqa: BLE001
@@ -174,6 +180,13 @@ def classify(ctx, mode, seed, ops, out, model, srcs, maxkeep=40, ssamodel=None):
                 continue
             dis += 1
             defect = rec.get("defect", "")
+            if a.startswith("compile-") and b and all(x == "E" for x in b.split(";")):
+                # rejected by the compiler AND undefined in the reference on every input: the PROGRAM is invalid
+                # (e.g. ill-scoped: a name used at the type of a declaration that is shadowed there) - a defect of the
+                # generator, not a finding about the compiler
+                gen_invalid.append({"mode": mode, "seed": seed, "case": rec.get("case", i), "compiler": vlib.clip(a, 200),
+                                    "source": vlib.clip(rec.get("src", ""), 1500)})
+                continue
             if not defect:
                 unexplained += 1
             if dis > maxkeep and defect:
@@ -213,7 +226,11 @@ def classify(ctx, mode, seed, ops, out, model, srcs, maxkeep=40, ssamodel=None):
     ctx.fails.extend(sorted(local, key=lambda f: 0 if f["sig"] == SIG_MISMATCH and not f["defect"] else 1))
     ctx.evaluations += n
     key = "validation_%s_seed%d" % (mode, seed)
-    ctx.coverage[key] = {"programs": n, "disagreements": dis, "unexplained": unexplained}
+    ctx.coverage[key] = {"programs": n, "disagreements": dis, "unexplained": unexplained,
+                         "invalid_programs_generated": len(gen_invalid)}
+    ctx.oblige("generator self-check %s seed %d: no generated program is rejected by BOTH the compiler and the reference "
+               "semantics (an ill-scoped / ill-typed program is a defect of the generator, not of the compiler)" % (mode, seed),
+               not gen_invalid, "generator emitted an ill-scoped program: %s" % json.dumps(gen_invalid[:3])[:3000])
     ctx.coverage["programs"] = ctx.coverage.get("programs", 0) + n
     ctx.coverage["disagreements_checked"] = ctx.coverage.get("disagreements_checked", 0) + dis
     ctx.oblige("translation validation %s seed %d: compiled circuit = Lean reference semantics on %d programs "
@@ -303,11 +320,22 @@ def run(ctx):
             "outside_reasons": {k[len("lower_outside_"):]: v for k, v in c.items() if k.startswith("lower_outside_")},
             "features": {k[len("lowfeat_"):]: v for k, v in c.items() if k.startswith("lowfeat_")}}
         ctx.evaluations += c.get("lower_evaluations", 0)
+        ctx.oblige("lower fragment holds >= 80 %% of the general generator's programs (%d of %d)"
+                   % (c.get("lower_gen_inside", 0), c.get("lower_gen_total", 0)),
+                   c.get("lower_gen_inside", 0) * 5 >= c.get("lower_gen_total", 0) * 4,
+                   "outside: %s" % ctx.coverage["lower_tie"]["outside_reasons"])
         lowneed = ["if", "if_else", "if_no_else", "early_return", "nested_return", "both_return", "one_branch_returns",
                    "return_in_loop", "loop_body_returns", "for", "for_zero_iters", "loopvar_operand", "div", "mod", "sdiv", "smod", "udiv", "umod",
                    "shift", "shift_ge_width", "shr_arith", "cmp_signed", "cmp_unsigned", "land_lor", "not", "neg",
                    "cast_sext", "cast_zext", "cast_trunc", "literal_wide", "literal_left", "bool_var", "decl_zero", "define",
-                   "opassign", "incdec", "two_results"]
+                   "opassign", "incdec", "two_results",
+                   # calls (inlined), arrays, structs, nested aggregates
+                   "call", "call_one_result", "call_decl", "multi_define", "multi_assign", "agg_argument", "helper",
+                   "callee_early_return", "callee_calls", "callee_multi_result", "callee_named_results",
+                   "callee_reuses_caller_names", "callee_agg_param", "callee_agg_result", "agg_param", "agg_result",
+                   "array", "struct", "nested_agg", "agg_zero", "agg_copy", "agg_assigned_in_if", "index_const",
+                   "index_loopvar", "index_variable", "field_read", "nested_read", "elem_write", "field_write",
+                   "nested_write", "store_index_loopvar", "component_write_in_loop", "opassign_component"]
         lowmiss = [k for k in lowneed if c.get("lowfeat_" + k, 0) == 0]
         ctx.oblige("lower tie reached every fragment feature (%d features) on >= %d programs, none skipped or rejected"
                    % (len(lowneed), nlow // 2),
@@ -349,6 +377,9 @@ def run(ctx):
         ctx.coverage["pkg_scoping_classes"] = pkgc
         pmiss = [k for k in need_pkg if pkgc.get(k, 0) == 0]
         pbug = {k: v for k, v in pkgc.items() if k.startswith("BUG_")}
+        # every finished pkg program is re-validated by the scope-aware walk (each use of a name must denote, at that
+        # point, a declaration of the type it is used at); offenders are dropped and regenerated, counted here
+        ctx.coverage["pkg_generator_ill_scoped_regenerated"] = c.get("pkg_generator_ill_scoped_regenerated", 0)
         ctx.oblige("package-level declarations: every listed scoping class occurred (%d classes: var/const/type declarations "
                    "used in main and callees, assigned in main, shadowed by parameters and function-level locals of the same "
                    "and of another type, the shadow read/assigned inside and after branches and loops), none outside the "
@@ -436,7 +467,7 @@ def run(ctx):
         "early-return elimination, loop unrolling for EVERY trip count (for = n-fold composition of the body, both "
         "directions), fuel irrelevance, the shipped @Test vectors evaluated in the model, witnesses of the known "
         "deviations; SSA level: Lean evaluator ssaEval of the real compiler's SSA step lists (Model/MpclSsa.lean) and the "
-        "theorem that on the scalar fragment (literals, all operators, if/else with early return, unrolled for) ssaEval(lower p) = run p for a Lean model `lower` of ssagen, itself tied to the real ssagen on every run (mode lower) "
+        "theorem that on the fragment of `lower` (literals, all operators, if/else with early return, unrolled for, arrays, structs, nested aggregates, inlined calls with several results) ssaEval(lower p) = run p for a Lean model `lower` of ssagen, itself tied to the real ssagen on every run (mode lower) "
         "(C03_ssa_lower_correct_partial).  Validation, three-way on every generated program and input: ssaEval(dumped "
         "real SSA) = Lean source interpreter = real compiler.Compile + circuit.Compute (a source-vs-circuit disagreement "
         "is localised to AST->SSA or SSA->circuit by the middle term), on generated programs "
